@@ -10,12 +10,16 @@ from checks.common import ROOT
 from harness import tlc
 
 BROKER = {"C01", "C05", "C12", "C14", "C15"}
+WORKER = {"C02", "C03", "C04", "C06", "C09", "C10", "C11"}
 
 
 def dispatch(pid: str, tier: str, seed: int, replay=None) -> int:
     if pid in BROKER:
         from checks import broker_checks
         return broker_checks.run(pid, tier, seed, replay=replay)
+    if pid in WORKER:
+        from checks import worker_checks
+        return worker_checks.run(pid, tier, seed, replay=replay)
     mod = __import__(f"checks.{pid.lower()}", fromlist=["run"])
     return mod.run(tier, seed, replay=replay)
 
